@@ -195,6 +195,7 @@ class UmModel:
 		self.next_fn = None
 		self.clock_started_at = None
 		self.ticks_since_start = 0
+		self.clock_sessions = []
 		self.port_map = {}
 		for t in self.trx:
 			self.port_map[t.ctrl_port] = (t, "ctrl")
@@ -251,6 +252,8 @@ class UmModel:
 			elif not self.clock_links and self.clock_running:
 				self.clock_running = False
 				self.probe("clock-stop")
+				# how long it should have been ticking, and how often it did
+				self.clock_sessions.append((now - self.clock_started_at, self.ticks_since_start))
 
 	# ---- control commands ---------------------------------------------------------------
 	def on_ctrl(self, T, data, now):
@@ -591,6 +594,10 @@ class Monitor:
 				if port in self.pending_rsp:
 					self._rsp_missing(port)
 				exp = m.on_ctrl(T, kw["data"], t)
+				while m.clock_sessions:
+					span, ticks = m.clock_sessions.pop()
+					if span > 3 * P_NS and ticks < span // P_NS - 2:
+						self.bad("clock.no-ticks-while-running", span_ns=span, ticks=ticks, at="clock stop")
 				if exp is not None and "hostile" in exp:
 					self._hostile_ctrl(T, exp, kw, t)
 					return
